@@ -83,11 +83,19 @@ func Multiple(r *kit.Rng) string {
 	}
 }
 
+// RateMalformed: values that are not "N" or "N/D" under any reading of the manual (no integer in
+// front, no duration or unit behind the slash, something else than a slash between them).
 var RateMalformed = []string{
-	"", "/", "abc", "fast", "Infinity", "INFINITY", "inf", "infinite", "infinity ", " infinity", "1.5", "1.5/s", "1e3", "0x10",
-	"5/", "/s", "/1s", "5//s", "5/1", "5/sec", "5/1 s", "5 /s", " 5/s", "5/s ", "5/1s/", "5/1s/2s", "5/2/3s", "five/s",
-	"5/x", "5/1x", "5/ss", "5/1sec", "5:1s", "5\\1s", "5/1.s.", "5/.s", "--5/s", "+-5", "5_000/s", "٥/s", "5/μ", "5/1d",
-	"9223372036854775808", "-9223372036854775809", "99999999999999999999/s", "1/9223372036854775808ns", "1/10000000000h",
+	"", "/", "abc", "fast", "5/", "/s", "/1s", "5//s", "5/1s/", "5/1s/2s", "5/2/3s", "five/s",
+	"5/x", "5/1x", "5/ss", "5:1s", "5\\1s", "5/1.s.", "5/.s", "--5/s", "+-5", "5/μ",
+}
+
+// RateOdd: values the unchanged code refuses but about which the manual says nothing definite (a
+// more lenient reading could accept them: other spellings of the word, blanks, other number
+// syntaxes, numbers beyond int64, durations beyond the range). No oracle; model comparison only.
+var RateOdd = []string{
+	"Infinity", "INFINITY", "inf", "infinite", "infinity ", " infinity", "1.5", "1.5/s", "1e3", "0x10", "5/1", "5/sec", "5/1 s", "5 /s", " 5/s", "5/s ",
+	"5/1sec", "5_000/s", "٥/s", "5/1d", "9223372036854775808", "-9223372036854775809", "99999999999999999999/s", "1/9223372036854775808ns", "1/10000000000h",
 }
 
 func Rate(r *kit.Rng) RateCase {
@@ -100,6 +108,9 @@ func Rate(r *kit.Rng) RateCase {
 		t := r.PickStr([]string{"0/1s", "0/s", "00", "+0", "-0", "0/5m", "0/garbage", "0/"})
 		return RateCase{Text: t, Kind: "zero", N: big.NewInt(0)}
 	case 3:
+		if r.Chance(0.5) {
+			return RateCase{Text: r.PickStr(RateOdd), Kind: "odd"}
+		}
 		return RateCase{Text: r.PickStr(RateMalformed), Kind: "malformed"}
 	case 4, 5, 6:
 		n, t := WideInt(r)
@@ -205,6 +216,10 @@ type SizeCase struct {
 	Text  string
 	Kind  string   // minus1 | size | overflow | malformed
 	Bytes *big.Int // documented meaning (1024-based)
+	// Doc: written like the manual's examples — digits, at most one blank, then nothing or a kilo…peta
+	// unit as a letter, letter+B or word (any case). Only these carry an oracle; exa, "b"/"byte", other
+	// spacing and leading zeros are compared with the model only.
+	Doc bool
 }
 
 var sizeUnits = []struct {
@@ -229,7 +244,7 @@ var SizeDocumented = [][2]string{{"10 MB", "10MB"}, {"10240 g", "10TB"}, {"2000"
 func Size(r *kit.Rng) SizeCase {
 	switch r.Pick(12) {
 	case 0:
-		return SizeCase{Text: "-1", Kind: "minus1", Bytes: big.NewInt(-1)}
+		return SizeCase{Text: "-1", Kind: "minus1", Bytes: big.NewInt(-1), Doc: true}
 	case 1:
 		return SizeCase{Text: r.PickStr(SizeMalformed), Kind: "malformed"}
 	case 2:
@@ -256,16 +271,26 @@ func Size(r *kit.Rng) SizeCase {
 		n = big.NewInt(r.Range(0, 100000))
 	}
 	t := n.String()
+	doc := true
 	if r.Chance(0.05) {
 		t = strings.Repeat("0", 1+r.Pick(2)) + t
+		doc = false
 	}
-	t += r.PickStr([]string{"", "", " ", "  ", "\t"}) + r.PickStr(u.names) + r.PickStr([]string{"", "", "", " ", "\n"})
-	c := SizeCase{Text: t, Kind: "size", Bytes: new(big.Int).Lsh(n, u.shift)}
+	sp, name, tail := r.PickStr([]string{"", "", " ", " ", "  ", "\t"}), r.PickStr(u.names), r.PickStr([]string{"", "", "", " ", "\n"})
+	t += sp + name + tail
+	doc = doc && len(sp) <= 1 && sp != "\t" && tail == "" && u.shift >= 10 && u.shift <= 50
+	if u.shift == 0 && name == "" && sp == "" && tail == "" {
+		doc = true // a plain number of bytes ("2000")
+	}
+	c := SizeCase{Text: t, Kind: "size", Bytes: new(big.Int).Lsh(n, u.shift), Doc: doc}
 	if !c.Bytes.IsInt64() {
 		c.Kind = "overflow"
 	}
 	return c
 }
+
+// SizeOfDocumented: the number of bytes one of the manual's examples stands for.
+func SizeOfDocumented(text string) *big.Int { return sizeOf(text).Bytes }
 
 func sizeOf(text string) SizeCase {
 	i := 0
@@ -277,7 +302,7 @@ func sizeOf(text string) SizeCase {
 	for _, u := range sizeUnits {
 		for _, nm := range u.names {
 			if strings.ToLower(nm) == unit {
-				return SizeCase{Text: text, Kind: "size", Bytes: new(big.Int).Lsh(n, u.shift)}
+				return SizeCase{Text: text, Kind: "size", Bytes: new(big.Int).Lsh(n, u.shift), Doc: true}
 			}
 		}
 	}
@@ -358,6 +383,9 @@ type ResolverCase struct {
 	Normal string
 	OK     bool
 	Kind   string
+	// Doc: written as the manual documents resolver addresses (ip or ip:port with a plain decimal
+	// port; IPv6 in brackets). Only these must be accepted.
+	Doc bool
 }
 
 var ResolverMalformed = []string{"", ":", ":53", "localhost", "localhost:53", "example.com", "1.2.3", "1.2.3.4.5", "256.1.1.1", "1.2.3.4:", "1.2.3.4:65536", "1.2.3.4:-1", "1.2.3.4:dns",
@@ -370,16 +398,18 @@ func Resolver(r *kit.Rng) ResolverCase {
 		return ResolverCase{Text: r.PickStr(ResolverMalformed), Kind: "malformed"}
 	case 1, 2:
 		ip := IPv4(r)
-		return ResolverCase{Text: ip, Normal: ip + ":53", OK: true, Kind: "v4"}
+		return ResolverCase{Text: ip, Normal: ip + ":53", OK: true, Kind: "v4", Doc: true}
 	case 3, 4:
-		t := IPv4(r) + ":" + Port(r)
-		return ResolverCase{Text: t, Normal: t, OK: true, Kind: "v4port"}
+		pt := Port(r)
+		t := IPv4(r) + ":" + pt
+		return ResolverCase{Text: t, Normal: t, OK: true, Kind: "v4port", Doc: !(len(pt) > 1 && pt[0] == '0')}
 	case 5:
 		t := "[" + IPv4(r) + "]:" + Port(r) // brackets around IPv4: SplitHostPort accepts, host is an IP
 		return ResolverCase{Text: t, Normal: t, OK: true, Kind: "v4bracket"}
 	default:
-		t := "[" + IPv6(r) + "]:" + Port(r)
-		return ResolverCase{Text: t, Normal: t, OK: true, Kind: "v6port"}
+		pt := Port(r)
+		t := "[" + IPv6(r) + "]:" + pt
+		return ResolverCase{Text: t, Normal: t, OK: true, Kind: "v6port", Doc: !(len(pt) > 1 && pt[0] == '0')}
 	}
 }
 
